@@ -20,6 +20,35 @@ def build_probe(ctx):
 
 
 def run_cases(ctx, cases, tag, shards=4, timeout=900):
+    """Run the cases; runs that hit the driver's deadline without the 'stuck' pattern (slow host)
+    are repeated alone with longer deadlines; still not ending -> inconclusive."""
+    obs = _run_cases(ctx, cases, tag, shards, timeout)
+    for attempt, dl in enumerate((15000, 60000)):
+        slow = [(i, o) for i, o in enumerate(obs) if o.get("timeout")]
+        if not slow:
+            break
+        ctx.note("%d run(s) hit the deadline on a slow host; repeating with %d s" % (len(slow), dl // 1000))
+        by_id = {c["id"]: c for c in cases}
+        again = []
+        for _, o in slow:
+            c = dict(by_id[o["id"]])
+            c["deadline"] = dl
+            c["reps"] = 1
+            again.append(c)
+        new = _run_cases(ctx, again, "%s_retry%d" % (tag, attempt), 2, timeout)
+        if len(new) != len(slow):
+            raise vlib.Inconclusive("retry returned %d observations for %d runs" % (len(new), len(slow)))
+        for (i, o), n in zip(slow, new):
+            n["rep"] = o["rep"]
+            obs[i] = n
+    slow = [o for o in obs if o.get("timeout")]
+    if slow:
+        raise vlib.Inconclusive("run does not end within 60 s although no tracee waits for the tracer: %s (%s)" % (
+            slow[0].get("raw"), slow[0].get("stuckat")))
+    return obs
+
+
+def _run_cases(ctx, cases, tag, shards=4, timeout=900):
     """cases: list of dicts (driver Case format).  Returns the list of observations (driver Obs
     format) in case order."""
     exe = ctx.build_vdrive("tracer")
@@ -59,7 +88,7 @@ def script_text(o):
 def slim(o, keep_events=False):
     """the part of an observation worth keeping in replay files / samples"""
     d = {k: o[k] for k in ("id", "rep", "raw", "dec", "filter", "traps", "logs", "effects", "status", "exit",
-                           "error", "stuck", "stuckat", "left") if k in o}
+                           "error", "stuck", "stuckat", "left", "timeout") if k in o}
     if o.get("class"):
         d["class"] = o["class"]
     if keep_events:
